@@ -1,5 +1,7 @@
 mod nodes;
 mod types;
+#[cfg(chokan_verif)]
+pub mod verif;
 
 use nodes::Nodes;
 use serde::{Deserialize, Serialize};
@@ -20,6 +22,15 @@ pub struct Trie {
     /// 内部で値として利用する、文字とデータIDのマッピングを管理する
     /// 今回は255種類のみ許容する
     labels: Labels,
+}
+
+#[cfg(chokan_verif)]
+impl Trie {
+    /// verification hook: (base, check) per slot, sorted free slots, (char, label) pairs
+    pub fn verif_dump(&self) -> (Vec<(i32, i32)>, Vec<usize>, Vec<(char, u8)>) {
+        let (nodes, empties) = self.nodes.verif_dump();
+        (nodes, empties, self.labels.verif_pairs())
+    }
 }
 
 impl Trie {
